@@ -9,7 +9,9 @@ flag) are the ones those values flow into. The small methods of the state class 
 grouping by task, merge of the carried-over samples and order of the batch are decided on the VALUE of that batch for representative streams, whatever spells them (chain + sort,
 sort + heapq.merge, concatenation, conditional expressions, comprehensions, extracted helpers); the structural reading of those statements is only the fallback for shapes the
 interpreter cannot evaluate. A construction of a tuple-like record class (NamedTuple) is the tuple of its fields. Only the field names of `Sample` (the vocabulary of the property)
-and the class / entry point names `ThroughputCalculator.calculate` are taken literally."""
+and the class / entry point names `ThroughputCalculator.calculate` / `SamplePostprocessor.__call__` are taken literally. O6.10 (what is WRITTEN for the values the calculator
+returns) evaluates the post-processor with the symbolic evaluator of rules/C07 (`_Interp`: objects with named fields, uninterpreted terms for unmodelled calls, effects with the loop
+elements they were produced under); it is imported lazily because C07 imports this module."""
 from __future__ import annotations
 
 import ast
@@ -1453,6 +1455,165 @@ def low_water_mark_rule(chk, drv, TS, TC, I):
            key=f"{_D}:ThroughputCalculator.TaskStats.update_interval:bucket-closing-time-low-water-mark")
 
 
+def throughput_records_rule(chk, repo, drv):
+    """What the property observes are the throughput RECORDS in the metrics store. The calculator returns, per task, values (absolute time, relative time, sample type, throughput,
+    unit); the sample post-processor writes them to the store. Necessary: every returned value is written exactly once, and the record carries that value's OWN five components and
+    the task it was returned for. A record that takes its sample type (or time, unit, value) from anything else in sight - a raw sample of the batch, another value, a constant -
+    reports successive values that go back to warm-up / a normal-phase task without a normal value / a changed runner-supplied throughput although the calculator was right.
+    Decided on VALUES: the post-processor's entry point is evaluated (C07's evaluator of parsed source, nothing of the repository runs) on a batch of raw samples of two tasks whose
+    fields are pairwise distinct, with the calculator replaced by a stub that returns three values - all components distinct from each other and from every field of a raw sample,
+    one value 0.0 (a runner may supply it), sample types rising within a task - and the records written to the store are compared with those values."""
+    chk.rule("O6.10", "every value the throughput calculator returns is written to the metrics store exactly once, as a record that carries that value's own absolute time, relative time, "
+             "sample type, throughput and unit and the task it was returned for - never a component of a raw sample of the batch, of another value, or a constant", 7,
+             "a batch whose samples do not all have the same type (parallel tasks with different warm-up, the batch with a task's warm-up -> normal switch), a runner-supplied throughput "
+             "of 0: the stored values go back to warm-up, a task in its normal phase gets no normal value, or the stored number is not the one supplied")
+    try:
+        from rules import C07 as ev7  # the evaluator of parsed source lives there (imported lazily: C07 imports this module)
+        for need in ("_Interp", "_O", "_T", "_Cls", "_explore", "_rep_samples", "_require_loops_modelled", "_contains_term", "_same", "_Undecided", "_Need"):
+            getattr(ev7, need)
+    except (ImportError, AttributeError) as x:
+        chk.unknown("O6.10", f"the evaluator of rules/C07 is not available ({type(x).__name__}: {x})", drv.cls("SamplePostprocessor"))
+        return
+
+    SP = drv.cls("SamplePostprocessor")
+    spc = drv.methods(SP).get("__call__")
+    if spc is None:
+        raise AnchorMissing("SamplePostprocessor.__call__")
+    try:
+        met = repo.module("esrally/metrics.py")
+        store_methods = met.methods(met.cls("MetricsStore"))
+    except AnchorMissing:
+        store_methods = {}
+    O_, T_ = ev7._O, ev7._T
+    store = T_("global", "store")
+    comp_names = ("absolute time", "relative time", "sample type", "throughput", "unit")
+
+    def make(oracle):
+        it = ev7._Interp([drv], oracle)
+        it.opaque = {"ThroughputCalculator"}
+        raw = ev7._rep_samples(5)  # tasks task-0 / task-1 alternate; the LAST raw sample belongs to task-0
+        t0_, t1_ = raw[0].f["task"], raw[1].f["task"]
+        agg = {t0_: [(7001.0, 71.0, "type-of-value-0 (warm-up)", 123.25, "docs/s"), (7002.0, 72.0, "type-of-value-1 (normal)", 456.5, "pages/s")],
+               t1_: [(7003.0, 73.0, "type-of-value-2 (normal)", 0.0, "ops/s")]}
+        asked = []
+
+        def model(path, args, kwargs):
+            if path.split(".")[0] == "ThroughputCalculator" and any(isinstance(a_, list) and a_ and all(any(x is s_ for s_ in raw) for x in a_) for a_ in list(args) + list(kwargs.values())):
+                asked.append(path)
+                return agg
+            return NotImplemented
+
+        it.model = model
+
+        def go():
+            o = it.call(ev7._Cls(SP, drv), [], dict(metrics_store=store, downsample_factor=1, track_meta_data={"track-meta": 1}, challenge_meta_data={"challenge-meta": 1}), SP)
+            it.effects.clear()
+            it.call(o, [raw], {}, SP)
+            return raw, agg, asked
+
+        return it, go
+
+    try:
+        runs = ev7._explore(make)
+        for it, (raw, agg, asked) in runs:
+            if len(asked) != 1:
+                raise ev7._Undecided(f"{len(asked)} call(s) of the throughput calculator receive the batch")
+            ev7._require_loops_modelled(it, [raw, agg])
+    except (ev7._Undecided, ev7._Need) as x:
+        chk.unknown("O6.10", f"SamplePostprocessor.__call__ not evaluated on the representative batch: {x}", spc)
+        return
+
+    def same(a, b):
+        return ev7._same(a, b) and not (isinstance(a, bool) != isinstance(b, bool))
+
+    def carries(v, comp, depth=0):
+        """the evaluated value is, or was computed (by something the evaluator does not model) from, the component `comp`."""
+        if isinstance(v, T_):
+            return depth < 10 and any(carries(a_, comp, depth + 1) for a_ in v.args)
+        if isinstance(v, (list, tuple)):
+            return depth < 10 and any(carries(a_, comp, depth + 1) for a_ in v)
+        return same(v, comp)
+
+    def judge(got, comp):
+        """True / False, or None when `got` is a term computed FROM the component by something that is not modelled (a term nothing of the value flows into is not its component)."""
+        if isinstance(got, T_):
+            return None if carries(got, comp) else False
+        return same(got, comp)
+
+    verdicts = {k_: [] for k_ in ("once",) + comp_names + ("task",)}  # obligation -> [(ok | None, detail, node)]
+    site = spc
+    for it, (raw, agg, _) in runs:
+        values = [(t_, v_) for t_, vs in agg.items() for v_ in vs]
+        recs = []
+        for e in it.effects:
+            if not (isinstance(e.callee, T_) and ev7._contains_term(e.callee, store)):
+                continue
+            if e.callee.path() is None:
+                chk.unknown("O6.10", f"call of `{short(e.node.func, 50) if isinstance(e.node, ast.Call) else e.path}`, a value computed from the metrics store by a call that is not modelled", e.node or spc)
+                return
+            sig = store_methods.get(e.name)
+            f = dict(zip(params_of(sig)[1:], e.args)) if sig is not None and len(e.args) <= len(params_of(sig)) - 1 else {f"<argument {i_}>": a_ for i_, a_ in enumerate(e.args)}
+            f.update(e.kwargs)
+            recs.append((f, e))
+        under = lambda e, v_: any(x is v_ for c in e.ctx for x in ((c,) + (tuple(c) if isinstance(c, (tuple, list)) else ())))  # noqa: E731
+        any_ctx = any(under(e, v_) for _, e in recs for _, v_ in values)
+        for task_, v_ in values:
+            what = f"the value ({', '.join(repr(x) for x in v_)}) returned for {task_.f['name']}"
+            if any_ctx:
+                mine = [(f, e) for f, e in recs if under(e, v_)]
+            else:
+                # no record is written under a loop over the returned values (comprehension, map ...): a record belongs to the value whose time or (non-zero) throughput it carries
+                mine = [(f, e) for f, e in recs if any(same(a_, v_[0]) or (v_[3] != 0 and same(a_, v_[3])) for a_ in f.values())]
+            if mine and mine[0][1].node is not None and site is spc:
+                site = mine[0][1].node
+            if len(mine) != 1:
+                verdicts["once"].append((False, f"{what} is written {len(mine)} times" + (": it never reaches the metrics store" if not mine else ""), mine[0][1].node if mine else None))
+                continue
+            verdicts["once"].append((True, "", None))
+            f, e = mine[0]
+            opaque_args = [k_ for k_, a_ in f.items() if isinstance(a_, T_)]
+            for i_, cn in enumerate(comp_names):
+                named = {"absolute time": _ABS, "relative time": _REL, "sample type": _STYPE}.get(cn)
+                if named is not None and named in f:
+                    got = f[named]
+                    ok_ = judge(got, v_[i_])
+                    det = f"{what} is stored with {named}={got!r}"
+                else:
+                    ok_ = True if any(same(a_, v_[i_]) for a_ in f.values()) else (None if any(carries(f[k_], v_[i_]) for k_ in opaque_args) else False)
+                    det = f"{what}: no argument of the record is its {cn} {v_[i_]!r} (arguments: {', '.join(f'{k_}={a_!r}' for k_, a_ in f.items() if not isinstance(a_, dict))[:200]})"
+                if ok_ is False:
+                    src_ = next((f"{o_.name}.{k_}" for o_ in list(raw) + [s_.f["task"] for s_ in raw[:2]] for k_, x in o_.f.items() if named is not None and named in f and same(x, f[named]) and not isinstance(x, (dict, list))), None)
+                    if src_ is None and named is not None and named in f:
+                        src_ = next((f"the {comp_names[j_]} of the value returned for {t2.f['name']} at t={v2[0]:g}" for t2, v2 in values if v2 is not v_ for j_ in range(5) if same(v2[j_], f[named])), None)
+                    det += f" - that is {src_}" if src_ else ""
+                    det += (f"; the calculator determined {v_[i_]!r}" if named is not None and named in f else "")
+                verdicts[cn].append((ok_, det if ok_ is not True else "", e.node))
+            tn = task_.f["name"]
+            if "task" in f:
+                ok_ = None if isinstance(f["task"], T_) and carries(f["task"], task_) else judge(f["task"], tn)
+            else:
+                ok_ = True if any(same(a_, tn) for a_ in f.values()) else (None if any(carries(f[k_], tn) for k_ in opaque_args) else False)
+            verdicts["task"].append((ok_, "" if ok_ else f"{what} is stored under task {f.get('task')!r}", e.node))
+
+    texts = {"once": "every value returned by the calculator is written to the metrics store exactly once",
+             "absolute time": "a throughput record carries the absolute time of its value", "relative time": "a throughput record carries the relative time of its value",
+             "sample type": "a throughput record carries the sample type the calculator determined for its value (the per-task type that only rises)",
+             "throughput": "a throughput record carries the calculated / runner-supplied number unchanged", "unit": "a throughput record carries the unit of its value",
+             "task": "a throughput record is stored under the task its value was returned for"}
+    for k_, vs in verdicts.items():
+        bad = [x for x in vs if x[0] is False]
+        unk = [x for x in vs if x[0] is None]
+        if bad:
+            chk.ob("O6.10", texts[k_], False, bad[0][2] or site, bad[0][1], key=f"{_D}:SamplePostprocessor.__call__:throughput-record:{k_.replace(' ', '-')}")
+        elif not vs and any(x[0] is False for x in verdicts["once"]):
+            continue  # the value never reached the store (reported above): there is no record to look at
+        elif unk or not vs:
+            chk.unknown("O6.10", f"{texts[k_]}: " + (unk[0][1] if unk else "no record located") + " - computed by something the evaluator has no representative value for", (unk[0][2] if unk else None) or site)
+        else:
+            chk.ob("O6.10", texts[k_], True, site, f"{len(vs)} value(s) of two tasks (one of them 0.0, types rising within a task, all components distinct from every raw sample of the batch)",
+                   key=f"{_D}:SamplePostprocessor.__call__:throughput-record:{k_.replace(' ', '-')}")
+
+
 # ---------------------------------------------------------------------------------------------------------------------------------------
 
 
@@ -1469,7 +1630,10 @@ def run(chk):
         "are decided on representative values (interpreted statement by statement, no repository code runs); so are grouping, merge and order of the batch calculate() hands to the "
         "per-task routines (calculate() interpreted with both routines stubbed) and the one-value-per-sample clause of the pass-through routine. "
         "After the defect hunt: a worker drains its sampler before every overwrite of it (O6.6); necessary conditions for a per-task sticky pass-through decision (O6.7), a "
-        "batch-independent unit source (O6.8) and a low-water-mark bucket-closing time over the producers (O6.9) - the last three are falsified on the pinned tree (known findings F49-F51)."
+        "batch-independent unit source (O6.8) and a low-water-mark bucket-closing time over the producers (O6.9) - the last three are falsified on the pinned tree (known findings F49-F51). "
+        "After seeding round 5: calculate() is also interpreted on ONE batch with the interleaved samples of four tasks (with / without carried-over samples, new) in every order - the batch "
+        "handed over for a task holds that task's new and carried-over samples and nothing of the task handled before it (O6.1); the sample post-processor is evaluated (evaluator of "
+        "rules/C07) with the calculator stubbed - every returned value is written to the metrics store exactly once, with its own times, sample type, number, unit and task (O6.10)."
     )
     chk.not_decided = "equality of the emitted numbers with ops/elapsed for all streams (numeric), bucket boundaries under out-of-order arrival."
     TC = drv.cls("ThroughputCalculator")
@@ -2188,6 +2352,135 @@ def run(chk):
             chk.unknown("O6.1", f"no read of <state>.{U} in calculate(); `{short(opaque[0], 50)}` may merge the carried-over samples", opaque[0])
         else:
             chk.ob("O6.1", "unprocessed merged into the next batch when the task has state", False, calc, f"calculate() never reads <state>.{U}: no chain(new samples, <stats>.{U})")
+    # Several tasks in ONE call (a parallel element; a client that starts its next task while the others keep running): what the per-task routine receives for a task is made of THAT
+    # task's samples only - its new ones and the ones carried over under ITS key. Nothing computed for the task handled before it in the per-task loop may reach it (a local that
+    # is bound on some paths only keeps the value of the previous iteration, an accumulator grows from task to task). Decided on VALUES: calculate() interpreted (per-task routines
+    # stubbed) on a batch with the interleaved samples of four tasks - one with two carried-over samples, one with state and nothing pending, one seen for the first time, one with
+    # a single carried-over sample - for every order in which the tasks can come up (the per-task loop runs in the order of first appearance in the batch).
+    _ROLES = (("A", "has two carried-over samples", ((3.0, 9.0, 1.0), (6.0, 4.0, 0.7))), ("B", "has state and nothing carried over", ()), ("C", "is seen for the first time", None),
+              ("D", "has one carried-over sample", ((4.0, 2.0, 0.2),)))
+
+    def isolation_on_values():
+        if sp is None:
+            raise CannotEval("calculate() takes no batch of samples")
+        for order in itertools.permutations(range(len(_ROLES))):
+            tasks_ = [_Task(name=r_[0]) for r_ in _ROLES]
+            old_ = [[_sample(task=tasks_[i_], absolute_time=a_ + 0.01 * i_, relative_time=r_, time_period=p_) for a_, r_, p_ in (_ROLES[i_][2] or ())] for i_ in range(len(_ROLES))]
+            new_ = [[] for _ in _ROLES]
+            stream = []
+            for rnd, t0_ in enumerate((8.0, 5.0)):  # the second sample of every task is OLDER than the first (out-of-order arrival across workers)
+                for pos, i_ in enumerate(order):
+                    s_ = _sample(task=tasks_[i_], absolute_time=t0_ + 0.1 * pos + 0.01 * i_, relative_time=1.0 + rnd, time_period=0.5 + rnd, client_id=i_)
+                    new_[i_].append(s_)
+                    stream.append(s_)
+            state = {tasks_[i_]: fresh(**{U: list(old_[i_])}) for i_ in range(len(_ROLES)) if _ROLES[i_][2] is not None}
+            seen = handed_over(state, list(stream))
+            calls_ = [(b_.get(key_param) if fn_ is ctt else None, v_) for fn_, b_ in seen for p_, v_ in b_.items() if (p_ == batch if fn_ is ctt else isinstance(v_, (list, tuple, _Iter)))]
+            if not calls_ or any(not isinstance(v_, (list, tuple)) or not all(isinstance(x, Record) and "task" in x.fields for x in v_) for _, v_ in calls_):
+                raise CannotEval("the batches handed to the per-task routines are not lists of samples")
+            came = ", ".join(_ROLES[i_][0] for i_ in order)
+            for i_, (nm_, what_, _) in enumerate(_ROLES):
+                mine = [v_ for k_, v_ in calls_ if (k_ is tasks_[i_] if isinstance(k_, _Task) else any(x is s_ for x in v_ for s_ in new_[i_]))]
+                for v_ in mine:
+                    for x in v_:
+                        if x.fields["task"] is not tasks_[i_]:
+                            j_ = next(j for j, t_ in enumerate(tasks_) if t_ is x.fields["task"])
+                            kind = "carried-over" if any(x is s_ for s_ in old_[j_]) else "new"
+                            return False, (f"tasks coming up in the order {came}: the batch handed to the per-task routine for task {nm_} (which {what_}) holds the {kind} sample at "
+                                           f"t={x.fields[_ABS]:g} of task {_ROLES[j_][0]} (which {_ROLES[j_][1]}): the operations of another task are counted for this one (and once more for "
+                                           "their own task), and a foreign sample that sorts first fixes this task's start time")
+                for what, items in (("carried-over", old_[i_]), ("new", new_[i_])):
+                    for s_ in items:
+                        k_ = sum(1 for v_ in mine for x in v_ if x is s_)
+                        if k_ != 1:
+                            return False, (f"tasks coming up in the order {came}: the {what} sample at t={s_.fields[_ABS]:g} of task {nm_} (which {what_}) reaches the per-task routine "
+                                           f"{k_} times under its own task: " + ("its operations are never counted" if k_ == 0 else "its operations are counted more than once"))
+        return True, (f"four interleaved tasks (two carried-over samples / state only / new / one carried-over sample) in all {len(list(itertools.permutations(range(len(_ROLES)))))} orders: "
+                      "every batch handed to a per-task routine holds exactly that task's new and carried-over samples")
+
+    def isolation_structural():
+        """fallback for a calculate() the interpreter cannot evaluate: no local that flows into the batch handed to the per-task routines carries a value from one iteration of the
+        per-task loop into the next (bound inside the loop, but not on every way from the loop head to a read of it; or bound before the loop and grown in place inside it)."""
+        if per_task is None or not isinstance(per_task, ast.For):
+            raise CannotEval("the per-task loop of calculate() was not located")
+        gc = cfg_of(calc)
+
+        def stores(n):
+            """names a statement binds afresh (an augmented assignment or an in-place growth is not a fresh binding; comprehension / lambda variables live in their own scope)."""
+            if isinstance(n, ast.Assign):
+                tg = n.targets
+            elif isinstance(n, (ast.AnnAssign, ast.For, ast.AsyncFor)):
+                tg = [n.target] if getattr(n, "value", True) is not None else []
+            elif isinstance(n, (ast.With, ast.AsyncWith)):
+                tg = [it_.optional_vars for it_ in n.items if it_.optional_vars is not None]
+            else:
+                return set()
+            return {x.id for t in tg for x in ast.walk(t) if isinstance(x, ast.Name) and isinstance(x.ctx, ast.Store)}
+
+        own = {x.id for x in ast.walk(per_task.target) if isinstance(x, ast.Name)}
+        inside = [n for st in per_task.body for n in ast.walk(st)]
+        flow = set()
+        for c_, fn_ in [(c_, ctt) for c_ in direct[ctt.name]] + [(c_, mtt) for c_ in direct[mtt.name]]:
+            for a_ in list(c_.args) + [k.value for k in c_.keywords]:
+                flow |= {x.id for x in ast.walk(a_) if isinstance(x, ast.Name)}
+        grown = {}
+        changed_ = True
+        while changed_:
+            changed_ = False
+            for n in inside:
+                src_, tgt_ = None, set()
+                if isinstance(n, (ast.Assign, ast.AugAssign, ast.AnnAssign, ast.NamedExpr)) and getattr(n, "value", None) is not None:
+                    tg = n.targets if isinstance(n, ast.Assign) else [n.target]
+                    tgt_ = {x.id for t in tg for x in ast.walk(t) if isinstance(x, ast.Name) and isinstance(x.ctx, ast.Store)}
+                    src_ = n.value
+                    if isinstance(n, ast.AugAssign) and isinstance(n.target, ast.Name):
+                        grown.setdefault(n.target.id, n)
+                elif isinstance(n, ast.Call) and isinstance(n.func, ast.Attribute) and isinstance(n.func.value, ast.Name) and n.func.attr in ("append", "extend", "insert", "update", "add"):
+                    tgt_ = {n.func.value.id}
+                    src_ = n
+                    grown.setdefault(n.func.value.id, n)
+                if src_ is not None and tgt_ & flow:
+                    more = {x.id for x in ast.walk(src_) if isinstance(x, ast.Name) and isinstance(x.ctx, ast.Load)} - flow
+                    if more:
+                        flow |= more
+                        changed_ = True
+        starts = gc.edge_targets(gc.node_of(per_task), "iter")
+        for nm_ in sorted(flow - own):
+            binds = [n for n in inside if nm_ in stores(n)]
+            if not binds:
+                if nm_ in grown and any(isinstance(n, ast.Assign) and any(isinstance(t, ast.Name) and t.id == nm_ for t in n.targets) for n in walk_body(calc)):
+                    return False, f"`{nm_}` is bound before the per-task loop and grown inside it (`{short(grown[nm_], 50)}`): what it has collected for one task is still in it for the next"
+                continue
+            bnodes = []
+            for n in binds:
+                try:
+                    bnodes.append(gc.node_of(n))
+                except KeyError:
+                    raise CannotEval(f"binding of `{nm_}`")
+            for x in inside:
+                if isinstance(x, ast.Name) and x.id == nm_ and isinstance(x.ctx, ast.Load):
+                    try:
+                        xn = gc.node_of(x)
+                    except KeyError:
+                        raise CannotEval(f"read of `{nm_}`")
+                    r_ = gc.reachable(starts, avoid=[b_ for b_ in bnodes if b_ is not xn], edge_ok=gc.normal_edge)
+                    if xn.id in r_ and (xn not in bnodes or isinstance(xn.ast, (ast.Assign, ast.AnnAssign))):
+                        return False, (f"`{short(source.enclosing_stmt(x), 60)}` reads `{nm_}`, which is bound inside the per-task loop but not on every way from the loop head to this read: "
+                                       "for such a task it still holds what was computed for the task handled before it")
+        return True, f"no local that flows into the batch ({', '.join(sorted(flow - own)) or '-'}) carries a value from one iteration of the per-task loop into the next"
+
+    iso = None
+    try:
+        iso = isolation_on_values()
+    except (CannotEval, RecursionError, ZeroDivisionError, TypeError, ValueError, KeyError, AttributeError, IndexError, StopIteration):
+        pass
+    iso_site = pend[0] if pend and mscope is calc else direct[ctt.name][0]
+    iso_text = "the batch of a task holds that task's samples only: its new ones and the ones carried over under its own key (several tasks in one call, in every order)"
+    iso_key = f"{_D}:ThroughputCalculator.calculate:batch-holds-only-the-task's-own-samples"
+    if iso is not None:
+        chk.ob("O6.1", iso_text, iso[0], iso_site, iso[1], key=iso_key)
+    else:
+        _decide(chk, "O6.1", iso_text, iso_site, isolation_structural, key=iso_key)
     # cleared once merged: either the merge site or the per-task routine resets unprocessed before appending again
     cleared = [n for n in walk_body(ctt) if isinstance(n, ast.Assign) and any(u(t) == f"{stats_var}.{U}" for t in n.targets) and _empty_list(n.value)
                and not in_loop(n) and g.dominated_by_nodes(Lh, [g.node_of(n)])]
@@ -2737,6 +3030,7 @@ def run(chk):
     passthrough_decision_rule(chk, H, calc, ctt, mtt, tp_field, key_param)
     unit_source_rule(chk, TC, ctt, emits, L, stats_var, batch, sampled)
     low_water_mark_rule(chk, drv, TS, TC, I)
+    throughput_records_rule(chk, repo, drv)
 
 
 def _close(a, b):
@@ -3271,3 +3565,82 @@ def _in_state_test(methods):
 _var("refactored: add_sample reports whether the bucket is complete and is the loop's condition", "keep", None, _in_state_test(_IN_STATE_TEST))
 _var("defect in a refactored shape: add_sample reports a complete bucket at elapsed time 0", "break", "O6.2",
      _in_state_test(_IN_STATE_TEST.replace("            return self.can_calculate_throughput()\n", "            return self.interval >= self.bucket\n")))
+
+
+# ---- strengthening round 5 (seeded m13, m14) ---------------------------------------------------------------------------------------------------------------------------------
+# O6.1 "the batch of a task holds that task's samples only": calculate() interpreted on one batch with four interleaved tasks in every order; nothing computed for the task handled
+# before may reach the next one
+_var("seed m13: carried-over list bound once before the per-task loop, re-bound only for known tasks", "break", "O6.1",
+     [(_MERGE_OLD, "            if task in self.task_stats:\n                carried_over = self.task_stats[task].unprocessed\n"
+                   "            current_samples = sorted(itertools.chain(v, carried_over), key=lambda s: s.absolute_time)\n"),
+      ("        global_throughput = {}\n", "        global_throughput = {}\n        carried_over = []\n")])
+_var("else arm of the merge dropped: a new task gets whatever `samples` held before", "break", "O6.1",
+     [("                samples = itertools.chain(v, self.task_stats[task].unprocessed)\n            else:\n                samples = v\n",
+       "                samples = itertools.chain(v, self.task_stats[task].unprocessed)\n")])
+_var("carried-over samples collected in a list that lives across the per-task loop", "break", "O6.1",
+     [(_MERGE_OLD, "            if task in self.task_stats:\n                pending.extend(self.task_stats[task].unprocessed)\n"
+                   "            current_samples = sorted(itertools.chain(v, pending), key=lambda s: s.absolute_time)\n"),
+      ("        global_throughput = {}\n", "        global_throughput = {}\n        pending = []\n")])
+_var("state looked up with the previous task's state as the default", "break", "O6.1",
+     [(_MERGE_OLD, "            known = self.task_stats.get(task, known)\n"
+                   "            current_samples = sorted(itertools.chain(v, known.unprocessed if known is not None else []), key=lambda s: s.absolute_time)\n"),
+      ("        global_throughput = {}\n", "        global_throughput = {}\n        known = None\n")])
+_var("refactored: carried-over list re-bound to an empty list in every iteration, then to the task's pending samples", "keep", None,
+     [(_MERGE_OLD, "            carried_over = []\n            if task in self.task_stats:\n                carried_over = self.task_stats[task].unprocessed\n"
+                   "            current_samples = sorted(itertools.chain(v, carried_over), key=lambda s: s.absolute_time)\n")])
+_var("refactored: shared empty default bound before the per-task loop, carry-over chosen per task", "keep", None,
+     [(_MERGE_OLD, "            carried_over = self.task_stats[task].unprocessed if task in self.task_stats else nothing\n"
+                   "            current_samples = sorted(itertools.chain(v, carried_over), key=lambda s: s.absolute_time)\n"),
+      ("        global_throughput = {}\n", "        global_throughput = {}\n        nothing = ()\n")])
+
+# O6.10 the throughput records written by the sample post-processor carry the components of the value they are written for
+_TP_LOOP = "            for absolute_time, relative_time, sample_type, throughput, throughput_unit in samples:\n"
+_TP_PUT = '''                self.metrics_store.put_value_cluster_level(
+                    name="throughput",
+                    value=throughput,
+                    unit=throughput_unit,
+                    task=task.name,
+                    operation=task.operation.name,
+                    operation_type=task.operation.type,
+                    sample_type=sample_type,
+                    absolute_time=absolute_time,
+                    relative_time=relative_time,
+                    meta_data=meta_data,
+                )
+'''
+_var("seed m14: throughput records stored with the sample type of the batch's last raw sample", "break", "O6.10",
+     [("                    sample_type=sample_type,\n                    absolute_time=absolute_time,", "                    sample_type=sample.sample_type,\n                    absolute_time=absolute_time,")])
+_var("throughput records always stored as normal samples", "break", "O6.10",
+     [("                    sample_type=sample_type,\n                    absolute_time=absolute_time,", "                    sample_type=metrics.SampleType.Normal,\n                    absolute_time=absolute_time,")])
+_var("throughput records stored with the type of the task's newest value of the batch", "break", "O6.10",
+     [("                    sample_type=sample_type,\n                    absolute_time=absolute_time,", "                    sample_type=samples[-1][2],\n                    absolute_time=absolute_time,")])
+_var("throughput records stored with absolute and relative time swapped", "break", "O6.10",
+     [("                    absolute_time=absolute_time,\n                    relative_time=relative_time,\n                    meta_data=meta_data,\n                )\n        end = time.perf_counter()\n        self.logger.debug(\"Storing throughput",
+       "                    absolute_time=relative_time,\n                    relative_time=absolute_time,\n                    meta_data=meta_data,\n                )\n        end = time.perf_counter()\n        self.logger.debug(\"Storing throughput")])
+_var("a throughput of 0 (runner-supplied, or nothing completed yet) is not stored", "break", "O6.10", [(_TP_LOOP, _TP_LOOP + "                if not throughput:\n                    continue\n")])
+_var("stored throughput truncated to an integer", "break", "O6.10", [("                    value=throughput,\n", "                    value=int(throughput),\n")])
+_var("refactored: value unpacked inside the loop body", "keep", None,
+     [(_TP_LOOP, "            for value in samples:\n                absolute_time, relative_time, sample_type, throughput, throughput_unit = value\n")])
+_var("refactored: throughput records written by an extracted helper, components read by index, positional store arguments", "keep", None,
+     [(_TP_LOOP + _TP_PUT, "            self._store_throughput(task, samples, meta_data)\n"),
+      ("    def merge(self, *args):\n        result = {}\n", '''    def _store_throughput(self, task, values, meta_data):
+        for value in values:
+            self.metrics_store.put_value_cluster_level(
+                "throughput", value[3], value[4], task.name, task.operation.name, task.operation.type, value[2], absolute_time=value[0], relative_time=value[1], meta_data=meta_data
+            )
+
+    def merge(self, *args):
+        result = {}
+''')])
+_var("defect in a refactored shape: extracted helper stamps every record with the type of the first value of the task", "break", "O6.10",
+     [(_TP_LOOP + _TP_PUT, "            self._store_throughput(task, samples, meta_data)\n"),
+      ("    def merge(self, *args):\n        result = {}\n", '''    def _store_throughput(self, task, values, meta_data):
+        sample_type = values[0][2] if values else None
+        for value in values:
+            self.metrics_store.put_value_cluster_level(
+                "throughput", value[3], value[4], task.name, task.operation.name, task.operation.type, sample_type, absolute_time=value[0], relative_time=value[1], meta_data=meta_data
+            )
+
+    def merge(self, *args):
+        result = {}
+''')])
